@@ -3,6 +3,8 @@ from __future__ import annotations
 
 from itertools import product
 
+import math
+
 import numpy as np
 from hypothesis import strategies as st
 
@@ -461,6 +463,44 @@ def run_delta(case):
     return Batch(cnt, cnt if p >= 2 else 0, fails, [case])
 
 
+# ------------------------------------------------------------------------------------------- epsilon x epsilon contractions
+def epseps_cases(tier, seed):
+    for n in range(2, (8 if tier == "thorough" else 7)):
+        for k in range(n, -1, -1):
+            if n ** (2 * (n - k)) <= (3e5 if tier == "thorough" else 5e4):
+                yield {"n": n, "k": k}
+
+
+def run_epseps(case):
+    """diagram of eps_cov(n) and eps_contra(n) with k edges between them: the result is the contraction over k index pairs,
+    entries up to k! in modulus (720 for n = k = 6, 5040 for 7) - evaluated against int64 einsum of own permutation-sign tables"""
+    from itertools import permutations
+
+    n, k = case["n"], case["k"]
+    own = np.zeros((n,) * n, dtype=np.int64)
+    for idx in permutations(range(n)):
+        own[idx] = X.perm_sign(idx)
+    letters = "abcdefghijklmnopqrstuvwxyz"
+    ia = letters[:n]
+    ib = letters[:k] + letters[n : 2 * n - k]
+    exp = np.einsum(f"{ia},{ib}->{ia[k:]}{ib[k:]}", own, own)
+    e1, e2 = LeviCivitaTensor(n, True), LeviCivitaTensor(n, False)
+    site = f"eps-eps:n{n}:k{k}"
+    r, f = call(site, lambda: TensorDiagram(*[(e1, e2)] * k).calculate() if k else e1.tensor_product(e2))
+    if f:
+        return Batch(1, 1, [(f, case)], [case])
+    fails = []
+    got = np.asarray(r.array)
+    if got.shape != exp.shape:
+        fails.append((mismatch(site + ":shape", (got.shape, exp.shape)), case))
+    elif not np.array_equal(got.astype(np.int64), exp):
+        bad = np.argwhere(got.astype(np.int64) != exp)
+        fails.append((mismatch(site + ":value", (bad[0].tolist(), int(got[tuple(bad[0])]), int(exp[tuple(bad[0])]), int(len(bad)))), case))
+    if r.tensor_shape != (n - k, n - k):
+        fails.append((mismatch(site + ":tensor_shape", r.tensor_shape), case))
+    return Batch(int(exp.size), int(exp.size) if math.factorial(k) > 127 else 0, fails, [case], {"max-entry>127" if math.factorial(k) > 127 else "max-entry<=127": 1})
+
+
 LAWS = [
     Law("diagram_program", lambda tier: program(tier), run_program, prog_nontrivial, prog_labels, {"quick": 3000, "thorough": 60000},
         "generated diagram programs vs reference bookkeeping model", shard=4000,
@@ -469,6 +509,8 @@ LAWS = [
         "a*b, b.__rmul__(a), a**k, a.tensor_product(b), a*ndarray as their defining programs", shard=4000),
     Law("epsilon_table", None, run_eps, enumerate=eps_cases, exhaustive=lambda tier: {"name": "all entries of LeviCivitaTensor(n), n=1..%d, both variances" % (7 if tier == "thorough" else 6), "size": sum(n**n for n in range(1, 8 if tier == "thorough" else 7)) * 2, "exhaustive": True},
         rule="every entry equals the permutation sign"),
+    Law("epsilon_contractions", None, run_epseps, enumerate=epseps_cases, exhaustive=lambda tier: {"name": "eps_cov(n) x eps_contra(n) joined by k edges, all (n, k) with n <= %d and result size <= cap" % (7 if tier == "thorough" else 6), "size": 0, "exhaustive": True},
+        rule="diagram value == int64 einsum of own permutation-sign tables (entries up to k!)", mandatory=("max-entry>127",)),
     Law("delta_table", None, run_delta, enumerate=delta_cases, exhaustive=lambda tier: {"name": "all entries of KroneckerDelta(n,p) with n^(2p) <= cap", "size": sum(n ** (2 * p) for n in range(1, 7) for p in range(1, 5) if n ** (2 * p) <= (2e5 if tier == "thorough" else 5e4)), "exhaustive": True},
         rule="every entry equals det[delta(mu_a, nu_b)], incl. p > n and p = n"),
 ]
